@@ -36,7 +36,7 @@ func Specs() map[string]*PropSpec {
 	strFiles := []string{"memdb/string.go", "memdb/keys.go", "memdb/db.go", "memdb/concurrentmap.go", "memdb/command.go", "server/db_manager.go"}
 	add(&PropSpec{ID: "C01", Files: strFiles,
 		Explanation: "Structural necessary conditions of the string/key command semantics, decided for every path of the executors in the anchor files: key and value bytes reach the keyspace unchanged (R9); every path returns a reply (R7); arity/option parsing cannot index outside the argument vector (R1); integer updates are overflow-guarded (R19); an error reply implies nothing was changed (R27); two argument keys that may be the same key are handled safely (R25); read-modify-write stays inside one lock hold (R15r); the named commands are registered (R0). Reply values against the Redis reference are not decided. A stored string is never written through (R9s) and asynchronous expiry re-validates the deadline under the key's stripe before it deletes (R17, timer goroutines included). Option values an executor parses into a local record are read afterwards (R29). Every value stored in the keyspace has one of the dynamic types the readers test for (R30); lock pairing and ordering of the string executors (R14p, R14o).",
-		Rules:       []RuleRef{registeredRule("set", "get", "mset", "mget", "setnx", "setex", "append", "strlen", "getrange", "setrange", "incr", "decr", "incrby", "decrby", "incrbyfloat", "del", "exists", "type", "rename", "keys", "ping"), rR9, rR7, rR1, rR19, rR25, rR27, rR15r, rR17, rR9s, rR29, rR30, rR14pair, rR14order, rR22w, rR31, rR20m, rR9m, rR32, rR30g}})
+		Rules:       []RuleRef{registeredRule("set", "get", "mset", "mget", "setnx", "setex", "append", "strlen", "getrange", "setrange", "incr", "decr", "incrby", "decrby", "incrbyfloat", "del", "exists", "type", "rename", "keys", "ping"), rR9, rR7, rR1, rR19, rR25, rR27, rR15r, rR17, rR9s, rR29, rR30, rR14pair, rR14order, rR22w, rR31, rR20m, rR9m, rR32, rR30g, rR22m}})
 	add(&PropSpec{ID: "C02", Files: []string{"resp/", "server/db_manager.go", "logger/"},
 		Explanation: "Parser robustness and identity, decided on all paths: every index/slice in the parser is proven in range (R1) and every allocation sized from the wire is bounded (R4), so no byte stream can panic the parser goroutine; the connection is consumed only through complete-read primitives and the parser resets after an error (R11); bulk payloads are unmodified sub-slices cut by count (R9p); a protocol error closes the connection without dispatching anything and only well-formed arrays are dispatched (R12c). Exact decode equality for all chunkings is not decided. The parser closes its result channel only after the end-of-stream report or on a done context (R11c).",
 		Rules:       []RuleRef{rR1, rR4, rR11, rR9p, rR12c, rR11c, rR11m, rR31, rR11t, rR5}})
@@ -45,13 +45,13 @@ func Specs() map[string]*PropSpec {
 		Rules:       []RuleRef{rR8, rR13, rR13p, rR7, rR12c, rR8d, rR8w, rR31, rR23u, rR14pair, rR9v}})
 	add(&PropSpec{ID: "C04", Files: []string{"server/", "resp/", "memdb/", "util/", "logger/", "config/"},
 		Explanation: "Catalogue of crash/wedge sources on request-reachable first-party code, each instance an obligation: index/slice bounds (R1: compiler prove pass or the SSA difference prover), nil dereference after an inconsistent test (R2), unchecked type assertions (R3), client-sized allocations (R4), explicit process exits (R5), lock pairing on all exits (R14p), no stripe acquired twice by one goroutine and sorted de-duplicated multi-key acquisition (R14o, R15m: a self-deadlock wedges the stripe for every later client), blocking executors kept out of the apply loop (R18), protocol errors contained (R12c). Termination of value-dependent loops and timing are not decided.",
-		Rules:       []RuleRef{rR1, rR2, rR3, rR4, rR5, rR14pair, rR14order, rR15m, rR18, rR12c}})
+		Rules:       []RuleRef{rR1, rR2, rR3, rR4, rR5, rR14pair, rR14order, rR15m, rR18, rR12c, rR22m}})
 	add(&PropSpec{ID: "C05", Files: []string{"memdb/", "util/"},
 		Explanation: "The locking protocol that single-key linearizability rests on, decided for every path: the key's stripe is held (write mode for writes and mutators) at every keyspace and container access (R15); a value written from a read lies in the same hold (R15r); every acquire is released on all exits (R14p); the atomic key counter is never accessed plainly and never sizes a result (R6); subscriber tables and the lazy-expiry decision are guarded (R17). Linearizability of recorded histories is not decided. Stored strings are immutable, because readers serialise them after the lock was released (R9s); the key counter and the subscriber counter mirror their tables entry by entry (R20n). The stripe table is built once and indexed purely (R15m); a container stored under one key is not shared with another (R26); bytes held by containers are immutable (R9v).",
 		Rules:       []RuleRef{rR15, rR15r, rR14pair, rR6, rR17, rR9s, rR20n, rR20m, rR6w, rR15m, rR26, rR9v, rR9w, rR30g}})
 	add(&PropSpec{ID: "C06", Files: []string{"memdb/"},
 		Explanation: "Lazy expiry decided structurally: every observation of a key is dominated by CheckTTL on the same key, KEYS filters candidates through it (R21); key removal and overwrite are paired with deadline removal, KEEPTTL excepted (R22); the expiry routine deletes only on a deadline re-read under the key's stripe (R17). Clock arithmetic is not decided; of the EXPIRE options only the structure is (which lookup outcome and which comparison each arm passes before it installs a deadline, R22e), not the values compared.",
-		Rules:       []RuleRef{rR21, rR22, rR22d, rR22w, rR22o, rR17, rR24u, rR22e}})
+		Rules:       []RuleRef{rR21, rR22, rR22d, rR22w, rR22o, rR17, rR24u, rR22e, rR22m}})
 	add(&PropSpec{ID: "C07", Files: []string{"server/", "raftexample/", "memdb/"},
 		Explanation: "Cluster-mode structure: connection goroutines reach the state machine only by proposing (R23) with globally unique proposal ids (R23u); the rendezvous table is mutex-guarded (R17cb); the Ready loop persists before it sends/publishes and ends in Advance, the apply loop executes before it acknowledges (R16r); blocking or connection-using executors are filtered (R18); nondeterministic inputs to replicated state and exits on the raft path are enumerated (R24, R5: known findings); bounds on the cluster path (R1). Linearizability and agreement at run time are not decided. A proposal is sent once per command (R23p); restart hands every WAL entry to the storage and picks a snapshot the WAL vouches for (R16x).",
 		Rules:       []RuleRef{rR23, rR23u, rR17cb, rR16r, rR18, rR24, rR5, boundsRule("R1c", []string{"server", "raftexample"}, nil, 4), rR23p, rR16x, rR16e, rR16f, rR18c, rR20cs}})
@@ -78,7 +78,7 @@ func Specs() map[string]*PropSpec {
 		Rules:       []RuleRef{rR10, rR10b, rR23, rR18, rR10f, rR23u, rR23p, rR16x, rR16e, rR16f, rR10t, rR16r, rR18c, rR20cs}})
 	add(&PropSpec{ID: "C15", Files: []string{"etcd/raft/"},
 		Explanation: "Guard dominance and writer sets that pin the mechanisms named by the property's anchors in the Raft library (R16g): deleting or weakening one of these tests is caught although the scripted raft tests may still pass. Election safety, log matching, leader completeness and state-machine safety themselves are invariants over all reachable states of a distributed protocol and are NOT decided. Guards of in-loop state updates are evaluated afresh in every iteration (R28: no check hoisted out of a loop that changes what is checked). Match grows only on the follower's own append response; prevHardSt is written where a Ready is accepted (R16h).",
-		Rules:       []RuleRef{rR16g, rR28, rR16h, rR16q, rR16u}})
+		Rules:       []RuleRef{rR16g, rR28, rR16h, rR16q, rR16u, rR16v}})
 	add(&PropSpec{ID: "C16", Files: []string{"etcd/", "raftexample/"},
 		Explanation: "Durability points and validation-before-hand-out in the WAL and snapshot code, as must-pass-through obligations on the success subgraph (R16w), plus torn-tail repair on reopen in the embedding application (R12s). The behaviour for each subset of lost sectors and each corrupted byte is an enumeration over file contents and is not decided; the checks only guarantee that the guards exist on every path. Every WAL scanner recognises the torn-tail report (R16t); the restart snapshot is one the WAL vouches for (R16x).",
 		Rules:       []RuleRef{rR16w, rR12s, rR16t, rR16x, rR16s, rR16p, rR16a}})
